@@ -437,7 +437,17 @@ def resave_stream(ctx, g, rng, IRm, all_reqs, all_checks):
             env.bind(ir)
             holder = ir if "t" in ir.aux_data else next(iter(ir.modules))
         ad = holder.aux_data["t"]
-        d = ad.data                      # the caller keeps this reference
+        try:
+            with time_limit(20):
+                d = ad.data                  # the caller keeps this reference
+        except ImplTimeout:
+            ctx.add("oracle", "resave:read-hangs", "reading a table of type %s that this API wrote itself does not return" % tn,
+                    {"type_name": tn, "value_sx": v0_sx})
+            continue
+        except Exception as e:  # noqa: BLE001
+            ctx.add("oracle", "resave:read-fails", "reading a table of type %s that this API wrote itself raises %s" % (tn, exc_name(g, e)),
+                    {"type_name": tn, "value_sx": v0_sx})
+            continue
         mo.append([0]); ch.append((len(mo) - 1, "read", ("ok", canon(to_sx(d, env)))))
         for rnd in range(rng.choice([2, 3])):
             buf = io.BytesIO()
